@@ -140,7 +140,8 @@ class C11(CodecBase):
     id = 'C11'
     examples = 3000
     rule = ('Messages generated as for C01 (nested groups included). For each: clone() before the original is encoded; copy_legal of body, header and '
-            'trailer into a fresh deep-constructed message of the same type; move_legal likewise (source destroyed afterwards, under ASan). '
+            'trailer into a fresh deep-constructed message of the same type; move_legal likewise (source destroyed afterwards, under ASan); the same three '
+            'transfers again with the message decoded from its own encoding as the source (factory-created: no group object behind a zero count). '
             'Oracle: each result, encoded once, is byte-identical to the reference encoding of the generated message and to the original\'s own '
             'encoding; copy counts == number of fields and group-element fields generated; move counts == number of top-level fields. '
             'Non-trivial: >=1 group with >=2 elements or nesting >=2.')
@@ -158,18 +159,19 @@ class C11(CodecBase):
         ref = fixref.ref_encode(sch, spec)
         if len(ref) > 7000:
             return {'excluded': ['longer_than_7000_bytes']}
-        ans = ex.call('build %s clone,copy,enc %s' % (case['schema'], toks))
+        ans = ex.call('build %s clone,copy,enc,dclone,dcopy,dmove %s' % (case['schema'], toks))
         mv = ex.call('movebuild %s %s' % (case['schema'], toks))
         shown = ref.replace('\x01', '|')
         f = fixref.spec_features(sch, spec)
 
         def wire(x):
             return bytes.fromhex(x).decode('latin-1').replace('\x01', '|') if isinstance(x, str) else repr(x)
-        for key, src in (('enc', ans), ('clone', ans), ('copy', ans), ('move', mv)):
+        for key, src in (('enc', ans), ('clone', ans), ('copy', ans), ('move', mv), ('dclone', ans), ('dcopy', ans), ('dmove', ans)):
             got = src.get(key)
             if not isinstance(got, str) or bytes.fromhex(got).decode('latin-1') != ref:
                 raise Violation('C11: %s of the message does not encode to the original content\n %-5s: %s\n ref  : %s' % (
-                    {'enc': 'the original', 'clone': 'clone()', 'copy': 'copy_legal target', 'move': 'move_legal target'}[key], key, wire(got), shown))
+                    {'enc': 'the original', 'clone': 'clone()', 'copy': 'copy_legal target', 'move': 'move_legal target', 'dclone': 'clone() of the decoded form',
+                     'dcopy': 'copy_legal target filled from the decoded form', 'dmove': 'move_legal target filled from the decoded form'}[key], key, wire(got), shown))
         want = [count_items(spec['b']), count_items(spec['h']), count_items(spec['t'])]
         if ans.get('copy_n') != want:
             raise Violation('C11: copy_legal reported %r fields copied, generated message has %r (body, header, trailer)\n ref: %s' % (
